@@ -535,10 +535,11 @@ func sendVal(h CaseHandle) reflect.Value {
 // ---- virtual clock and timers ------------------------------------------------
 
 type timer struct {
-	at    int64
-	ch    *chanModel
-	fired bool
-	val   func(int64) any
+	at      int64
+	ch      *chanModel
+	fired   bool
+	stopped bool
+	val     func(int64) any
 }
 
 // ClockNow returns the virtual time (ns) and ticks it by 1ns, so successive
@@ -566,7 +567,7 @@ func AdvanceClock(d int64) {
 	S.clock += d
 	for i := 0; i < S.ntimers; i++ {
 		tm := &S.timers[i]
-		if !tm.fired && tm.at <= S.clock {
+		if !tm.fired && !tm.stopped && tm.at <= S.clock {
 			tm.fired = true
 			c := tm.ch
 			if c.n < c.cap {
@@ -585,24 +586,55 @@ func AdvanceClock(d int64) {
 //go:norace
 func SetClock(ns int64) { S.clock = ns }
 
-// NewTimerChan registers a modelled timer on the real channel ch (cap 1).
+// StopTimer disarms modelled timer id (as time.Timer.Stop); it reports whether
+// the timer was still pending.
 //
 //go:norace
-func NewTimerChan[T any](ch chan T, d int64, mk func(int64) any) {
+func StopTimer(id int) bool {
+	if !S.active || id < 0 || id >= S.ntimers {
+		return false
+	}
+	tm := &S.timers[id]
+	was := !tm.fired && !tm.stopped
+	tm.stopped = true
+	return was
+}
+
+// ResetTimer re-arms modelled timer id to fire d from now on the same channel.
+//
+//go:norace
+func ResetTimer(id int, d int64) bool {
+	if !S.active || id < 0 || id >= S.ntimers {
+		return false
+	}
+	tm := &S.timers[id]
+	was := !tm.fired && !tm.stopped
+	tm.fired, tm.stopped, tm.at = false, false, S.clock+d
+	return was
+}
+
+// NewTimerChan registers a modelled timer on the real channel ch (cap 1) and
+// returns its id (-1 outside a controlled execution).
+//
+//go:norace
+func NewTimerChan[T any](ch chan T, d int64, mk func(int64) any) int {
 	t := Enter()
 	if t == nil {
-		return
+		return -1
 	}
+	id := -1
 	key := chanKey(ch)
 	c := S.chanFor(key, cap(ch), reflect.ValueOf(ch))
 	c.hasExt = false
 	if S.ntimers < len(S.timers) {
 		S.timers[S.ntimers] = timer{at: S.clock + d, ch: c, val: mk}
+		id = S.ntimers
 		S.ntimers++
 	} else {
 		S.setVerdict(VHorizon, "timer cap reached")
 	}
 	Leave()
+	return id
 }
 
 // PendingTimers returns how many modelled timers have not fired yet.
@@ -611,7 +643,7 @@ func NewTimerChan[T any](ch chan T, d int64, mk func(int64) any) {
 func PendingTimers() int {
 	n := 0
 	for i := 0; i < S.ntimers; i++ {
-		if !S.timers[i].fired {
+		if !S.timers[i].fired && !S.timers[i].stopped {
 			n++
 		}
 	}
